@@ -250,8 +250,16 @@ pub fn observe(ctx: &mut Ctx, rtxn: &RoTxn, db: RawDb, idx: u16, metric: Metric,
                         riter.push(json!([ctx.rank(id), ctx.tok(&v), v.len() as i64]));
                     }
                 }
+                // stats() walks the forest with unwraps: a panic is data
+                let stats = catch_unwind(AssertUnwindSafe(|| reader.stats(rtxn))).ok().and_then(|r| r.ok());
+                let n_nodes = reader.n_nodes(rtxn).ok().flatten().map(|n| n.get() as i64).unwrap_or(0);
+                let total_keys = db.iter(rtxn).map(|it| it.count() as i64).unwrap_or(-1);
                 rd = json!({
                     "has": true,
+                    "stats_ok": stats.is_some(),
+                    "stats": stats.as_ref().map(|s| s.tree_stats.iter().map(|t| json!([t.depth as i64, t.dummy_normals as i64, t.split_nodes as i64, t.descendants as i64])).collect::<Vec<_>>()).unwrap_or_default(),
+                    "stats_leaf": stats.as_ref().map(|s| s.leaf as i64).unwrap_or(-1),
+                    "n_nodes": n_nodes, "total_keys": total_keys,
                     "n_items": reader.n_items() as i64,
                     "items": reader.item_ids().iter().map(|id| ctx.rank(id)).collect::<Vec<_>>(),
                     "n_trees": reader.n_trees() as i64,
